@@ -53,34 +53,33 @@ Qed.
 
 Lemma build_message_S cfg table fuel d path :
   build_message cfg table (S fuel) d path =
-  bbind (match md_fields d with
-         | [] => BOk [placeholder_field path]
-         | _ :: _ =>
-             bbind (build_field_list cfg table (build_message cfg table fuel) d path (md_fields d))
-                   (fun l => BOk (if o_sort cfg then sort_by (fun f => fi_name (f_info f)) l else l))
-         end)
-        (fun fields =>
-           BOk (Msg (md_name d) fields (map go_name (md_oneofs d))
+  bbind (build_field_list cfg table (build_message cfg table fuel) d path (md_fields d))
+        (fun l =>
+           BOk (Msg (md_name d)
+                    (match l with
+                     | [] => [placeholder_field path]
+                     | _ :: _ => if o_sort cfg then sort_by (fun f => fi_name (f_info f)) l else l
+                     end)
+                    (map go_name (md_oneofs d))
                     (match o_injected cfg path with Some l => l | None => [] end)
-                    (match md_fields d with [] => true | _ => false end)
+                    (match l with [] => true | _ :: _ => false end)
                     (zero_struct table (S (List.length table)) (md_name d)))).
-Proof. cbn [build_message]. destruct (md_fields d); reflexivity. Qed.
+Proof. reflexivity. Qed.
 
-(* what a successful build says about the field list *)
+(* what a successful build says about the field list: the fields were all built, giving the list l;
+   no field left: the placeholder, and the message counts as empty; otherwise l, sorted or not *)
 Lemma build_message_ok_inv cfg table fuel d path m :
   build_message cfg table (S fuel) d path = BOk m ->
-  (md_fields d = [] /\ m_fields m = [placeholder_field path]) \/
-  (md_fields d <> [] /\
-   exists l, build_field_list cfg table (build_message cfg table fuel) d path (md_fields d) = BOk l /\
-             m_fields m = if o_sort cfg then sort_by (fun f => fi_name (f_info f)) l else l).
+  exists l, build_field_list cfg table (build_message cfg table fuel) d path (md_fields d) = BOk l /\
+    ((l = [] /\ m_fields m = [placeholder_field path] /\ m_empty m = true) \/
+     (l <> [] /\ m_fields m = (if o_sort cfg then sort_by (fun f => fi_name (f_info f)) l else l) /\
+      m_empty m = false)).
 Proof.
   rewrite build_message_S. intros H.
-  destruct (md_fields d) as [|f fs] eqn:Ef.
-  - left. cbn [bbind] in H. injection H as <-. auto.
-  - right. split; [discriminate|].
-    destruct (build_field_list cfg table (build_message cfg table fuel) d path (f :: fs)) as [l|e|] eqn:El;
-      cbn [bbind] in H; try discriminate.
-    injection H as <-. exists l. auto.
+  destruct (build_field_list cfg table (build_message cfg table fuel) d path (md_fields d)) as [l|e|] eqn:El;
+    cbn [bbind] in H; try discriminate.
+  injection H as <-. exists l. split; [reflexivity|].
+  destruct l as [|c r]; [left; auto|right]. split; [discriminate|]. auto.
 Qed.
 
 Theorem build_message_ok_fields cfg table fuel d path m :
@@ -89,9 +88,8 @@ Theorem build_message_ok_fields cfg table fuel d path m :
                       (md_name d ++ "." ++ fd_name f)
                       (if fd_embed f then path else path ++ "." ++ fd_name f) (Some f) = BOk x) (md_fields d).
 Proof.
-  intros H. apply build_message_ok_inv in H. destruct H as [(E & _)|(_ & l & Hl & _)].
-  - rewrite E. constructor.
-  - eapply build_field_list_ok_inv; eassumption.
+  intros H. apply build_message_ok_inv in H. destruct H as (l & Hl & _).
+  eapply build_field_list_ok_inv; eassumption.
 Qed.
 Print Assumptions build_message_ok_fields.
 
@@ -315,13 +313,14 @@ Theorem C15_sorted_fields cfg table fuel d d' path m m' :
 Proof.
   intros Hs Hn Ho P H H' ND.
   apply build_message_ok_inv in H. apply build_message_ok_inv in H'. rewrite Hs in *.
-  destruct H as [(E & Em)|(NE & l & Hl & Em)], H' as [(E' & Em')|(NE' & l' & Hl' & Em')].
+  destruct H as (l & Hl & Hc), H' as (l' & Hl' & Hc').
+  destruct (build_field_list_perm _ _ _ d d' path _ _ l Hn Ho P Hl) as (r' & Hr' & Pl).
+  assert (r' = l') by congruence. subst r'.
+  destruct Hc as [(E & Em & _)|(NE & Em & _)], Hc' as [(E' & Em' & _)|(NE' & Em' & _)].
   - congruence.
-  - rewrite E in P. apply Permutation_nil in P. contradiction.
-  - rewrite E' in P. symmetry in P. apply Permutation_nil in P. contradiction.
-  - destruct (build_field_list_perm _ _ _ d d' path _ _ l Hn Ho P Hl) as (r' & Hr' & Pl).
-    assert (r' = l') by congruence. subst r'.
-    rewrite Em, Em'. apply sort_by_perm_eq; [exact Pl|].
+  - subst l. apply Permutation_nil in Pl. contradiction.
+  - subst l'. symmetry in Pl. apply Permutation_nil in Pl. contradiction.
+  - rewrite Em, Em'. apply sort_by_perm_eq; [exact Pl|].
     rewrite Em in ND. eapply Permutation_NoDup; [|exact ND].
     apply Permutation_map. apply sort_by_perm.
 Qed.
